@@ -287,8 +287,10 @@ class Scenario:
         def body():
             s = sched._current
             st = s.me()
+            # one decision of the scheduler = one edit (the first decision performs edit 0)
             for k, e in enumerate(self.case["edits"]):
-                s.yield_point(st)
+                if k:
+                    s.yield_point(st)
                 self.edit(k)
                 self.rec.env(self.env_code(k))
         return body
@@ -869,7 +871,7 @@ class C19(Check):
         "CPython executes each traced source line of the four modules atomically with respect to the modelled state",
         "threading.Lock is a mutex (replaced by the cooperative lock of harness/sched.py in the scheduled runs)",
         "SQLite executes one statement in autocommit mode atomically (its own locking is not modelled)",
-        "every file edit changes the stat version (ctime/mtime/size) of the file",
+        "every file STATE has a stat version (ctime/mtime/size) of its own; an edit that switches the path back to an earlier state brings back that state's version (text files: symlink roll-back)",
         "YAML: C12's cache transparency enters the model as the invariant 'every stored item is a correct result for "
         "the versions its call read', proved preserved by every interleaving",
     ]
